@@ -275,7 +275,7 @@ DEFAULT_SPEC = {
     'max_gb': 1.0, 'n_extra_genes': None, 'extra_first': False,
     'h5_layout': None, 'level_pool': None, 'unsorted_indices': None,
     'full_cells': 0, 'query_order': None, 'flat_cells': 0,
-    'root_only_cells': 0,
+    'root_only_cells': 0, 'wide_root': None,
 }
 
 
@@ -302,7 +302,12 @@ def build_world(spec, work):
         (work / d).mkdir(parents=True, exist_ok=True)
 
     # taxonomy
-    if s.get('shape_index') is not None:
+    if s.get('wide_root'):
+        # a root with hundreds of children (two leaves each)
+        forest = tuple(((), ()) for _ in range(int(s['wide_root'])))
+        model = gen.build_from_shape(forest, 2, rng, level_pool=_pool(s),
+                                     share_names=False)
+    elif s.get('shape_index') is not None:
         shapes = gen.enumerate_shapes(4, 6)
         d, n, forest = shapes[s['shape_index']]
         model = gen.build_from_shape(forest, d, rng, level_pool=_pool(s))
